@@ -360,7 +360,7 @@ def direction_a(ctx, cov, universe0):
 
 
 # ------------------------------------------------------------------ direction B
-def direction_b(ctx, cov, pkg, test, tag, synctest):
+def direction_b(ctx, cov, pkg, test, tag, synctest, vacuous):
     tout = ctx.path("c19_%s.ndjson" % tag)
     rc, out = ctx.go_test(pkg, FILES, test, env={"VERIF_OUT": tout}, synctest=synctest)
     rows = vlib.read_ndjson(tout)
@@ -381,7 +381,7 @@ def direction_b(ctx, cov, pkg, test, tag, synctest):
         }
         for k in ("checks", "blocked", "answered_from_cache", "asked"):
             if not stats[k]:
-                raise vlib.Inconclusive("vacuous %s trace: no %s" % (tag, k))
+                vacuous.append("vacuous %s trace: no %s" % (tag, k))
         reproduced = 0
         starts = {r["w"]: i for i, r in enumerate(rows) if r["a"] == "reset"}
         sizes = {r["w"]: r.get("size", 0) for r in rows if r["a"] == "reset"}
@@ -449,9 +449,10 @@ def run(ctx):
     universe0 = [v["universe"] for v in mc["vectors"] if "universe" in v][0]
     del mc
 
+    vacuous = []
     parts = [direction_a(ctx, cov, universe0),
-             direction_b(ctx, cov, PKG, "^TestZZVerifC19Trace$", "pkg", True),
-             direction_b(ctx, cov, FPKG, "^TestZZVerifC19Front$", "front", False)]
+             direction_b(ctx, cov, PKG, "^TestZZVerifC19Trace$", "pkg", True, vacuous),
+             direction_b(ctx, cov, FPKG, "^TestZZVerifC19Front$", "front", False, vacuous)]
     # One TLC run judges all three traces (they are concatenated; every walk
     # starts with its own reset line).
     every = [ln for lines, _ in parts for ln in lines]
@@ -462,6 +463,10 @@ def run(ctx):
         res.append(digest(mine, skipped if mine else 0, {k - off: v for k, v in diag.items()}))
         off += len(lines)
     a, b, f = res
+    # A trace in which nothing was ever blocked / cached shows nothing -- unless
+    # it is the code's misbehaviour that made it so, which is reported first.
+    if vacuous and not ctx.violations:
+        raise vlib.Inconclusive("; ".join(vacuous))
     cov.update({
         "traces_validated_against_impl": cov["a_walks"] + 2,
         "evaluations": len(every),
